@@ -118,8 +118,12 @@ def main():
                     lv["status_last_run"] = ("FALSE ALARM (%s): %s" % (r["when"], [(x["check"], x["tier"], x["rc"], x["first"] or x["tail"]) for x in r["runs"] if x["rc"]])
                                              if caught else "quiet (%s): %s" % (r["when"], [(x["check"], x["tier"]) for x in r["runs"]]))
                 elif caught:
+                    lv.setdefault("status_at_first_run", "caught")
+                    lv.setdefault("checks_run", "tools/seed_all.py %s" % n)
                     lv["status_last_run"] = "caught (%s): %s" % (r["when"], first)
                 else:
+                    lv.setdefault("status_at_first_run", "missed")
+                    lv.setdefault("checks_run", "tools/seed_all.py %s" % n)
                     lv["status_last_run"] = "MISSED (%s): %s" % (r["when"], [(x["check"], x["tier"], x["rc"]) for x in r["runs"]])
             else:
                 lv["status_last_run"] = "patch no longer applies to /repo at %s (the lines were changed by a later fix: commit)" % r["repo_head"]
